@@ -31,6 +31,11 @@ BopName(v) == IF v = "contains" THEN "Contains" ELSE IF v = "matches" THEN "Matc
               ELSE IF v = "wildcard" THEN "Wildcard" ELSE "Strict Wildcard"
 LopName(v) == IF v = "and" THEN "And" ELSE IF v = "or" THEN "Or" ELSE "Xor"
 
+(* a list name is a non-empty run of a-z 0-9 _ . that neither starts nor ends with a dot *)
+ListNameOk(nm) == /\ Len(nm) > 0
+                  /\ \A j \in 1..Len(nm) : nm[j] \in (97..122) \cup (48..57) \cup {95, 46}
+                  /\ nm[1] # 46 /\ nm[Len(nm)] # 46
+
 IsCmpOpTok(k) == k \in {"in", "ord", "band", "bop"}
 
 (* brace-list item kinds admissible for a left-hand type *)
@@ -69,7 +74,7 @@ LexCmpWithLhs(c, p, d, l) ==        \* l: result of LexIndex (node = lhs, ty, po
     IF ~IsCmpOpTok(t.k) THEN Fail
     ELSE IF t.k = "in" /\ T.k \in {"Ip", "Bytes", "Int"}
          THEN IF n.k = "list"
-              THEN IF n.valid /\ ListIdx(c.sch, T) # NoIdx
+              THEN IF ListNameOk(n.name) /\ ListIdx(c.sch, T) # NoIdx
                    THEN Mk("InList", MkRhs(n), p + 2) ELSE Fail
               ELSE IF n.k = "lbr"
                    THEN LET r == LexItems(c, p + 2, T, <<>>)
